@@ -246,7 +246,7 @@ func trimStack(st string) string {
 	lines := strings.Split(st, "\n")
 	var keep []string
 	for _, l := range lines {
-		if strings.Contains(l, "/repo/") || strings.Contains(l, "gen-C") || strings.Contains(l, "go-modbus-client") {
+		if strings.Contains(l, "/repo/") || strings.Contains(l, "/gen-") || strings.Contains(l, "go-modbus-client") {
 			keep = append(keep, strings.TrimSpace(l))
 		}
 		if len(keep) >= 8 {
